@@ -31,24 +31,26 @@ CONSTANTS
   EventShapes <- %s
   EvNames <- %s
   Listeners <- %s
+  SubmitKinds <- %s
   Loose = FALSE
   Dev <- %s
 %s%s''' % (spec, k["MaxCmd"], k["MaxEv"], k["MaxLop"], k["MaxPost"], k["MaxDisc"], k["RS"], k["ES"],
-           k["N"], k["L"], k["Dev"], extra, inv))
+           k["N"], k["L"], k.get("K", "K2"), k["Dev"], extra, inv))
 
 
 # exhaustive design checks -------------------------------------------------
 # C01: queue + line machine
-cfg("MC_C01_quick", MaxCmd=3, MaxEv=1, MaxLop=0, MaxPost=0, MaxDisc=0, RS="RS_small", ES="ES_small", N="N1", L="L0")
-cfg("MC_C01_thorough", MaxCmd=4, MaxEv=1, MaxLop=0, MaxPost=1, MaxDisc=0, RS="RS_big", ES="ES_small", N="N1", L="L0")
+cfg("MC_C01_quick", K="K2", MaxCmd=3, MaxEv=1, MaxLop=0, MaxPost=0, MaxDisc=0, RS="RS_small", ES="ES_small", N="N1", L="L0")
+cfg("MC_C01_thorough", K="K2", MaxCmd=4, MaxEv=1, MaxLop=0, MaxPost=1, MaxDisc=0, RS="RS_big", ES="ES_small", N="N1", L="L0")
+cfg("MC_C01_reent", K="K4", MaxCmd=2, MaxEv=0, MaxLop=0, MaxPost=1, MaxDisc=0, RS="RS_small", ES="ES_small", N="N1", L="L0")
 # C02: events, listeners, SETEVENTS
 cfg("MC_C02_quick", MaxCmd=1, MaxEv=2, MaxLop=2, MaxPost=0, MaxDisc=0, RS="RS_two", ES="ES_small", N="N1", L="L3")
 cfg("MC_C02_thorough", MaxCmd=1, MaxEv=2, MaxLop=3, MaxPost=0, MaxDisc=0, RS="RS_two", ES="ES_small", N="N1", L="L3")
 cfg("MC_C02_other", MaxCmd=1, MaxEv=1, MaxLop=3, MaxPost=0, MaxDisc=0, RS="RS_two", ES="ES_two", N="N1", L="L4")
 cfg("MC_C02_names", MaxCmd=1, MaxEv=1, MaxLop=3, MaxPost=0, MaxDisc=0, RS="RS_two", ES="ES_two", N="N2", L="L2")
 # C03: loss
-cfg("MC_C03_quick", MaxCmd=2, MaxEv=1, MaxLop=1, MaxPost=2, MaxDisc=2, RS="RS_two", ES="ES_small", N="N1", L="L2")
-cfg("MC_C03_thorough", MaxCmd=2, MaxEv=1, MaxLop=1, MaxPost=3, MaxDisc=2, RS="RS_three", ES="ES_two", N="N1", L="L2")
+cfg("MC_C03_quick", K="K3", MaxCmd=2, MaxEv=0, MaxLop=1, MaxPost=2, MaxDisc=1, RS="RS_two", ES="ES_small", N="N1", L="L2")
+cfg("MC_C03_thorough", K="K3", MaxCmd=2, MaxEv=1, MaxLop=1, MaxPost=2, MaxDisc=2, RS="RS_two", ES="ES_two", N="N1", L="L2")
 # historic defects as deviations: each must yield a counterexample
 cfg("Dev_c02_cb_leak", MaxCmd=1, MaxEv=1, MaxLop=1, MaxPost=0, MaxDisc=0, RS="RS_two", ES="ES_small", N="N1", L="L2", Dev="DevLeak")
 cfg("Dev_c02_skip", MaxCmd=1, MaxEv=1, MaxLop=2, MaxPost=0, MaxDisc=0, RS="RS_two", ES="ES_small", N="N1", L="L3", Dev="DevSkip")
@@ -58,9 +60,9 @@ for probe in ("ProbeEventDuringCb", "ProbeLossMidBlock", "ProbeSelfRemoval"):
     cfg("Probe_" + probe, inv="INVARIANT %s\n" % probe, MaxCmd=2, MaxEv=1, MaxLop=2, MaxPost=0, MaxDisc=0,
         RS="RS_small", ES="ES_small", N="N1", L="L2")
 # behaviour generation ----------------------------------------------------
-cfg("Gen_C01", spec="GSpec", inv="", extra="  AllowLose = FALSE\n", MaxCmd=5, MaxEv=0, MaxLop=0, MaxPost=0, MaxDisc=0,
+cfg("Gen_C01", K="K4", spec="GSpec", inv="", extra="  AllowLose = FALSE\n", MaxCmd=5, MaxEv=0, MaxLop=0, MaxPost=0, MaxDisc=0,
     RS="RS_big", ES="ES_small", N="N1", L="L0")
 cfg("Gen_C02", spec="GSpec", inv="", extra="  AllowLose = FALSE\n", MaxCmd=3, MaxEv=5, MaxLop=6, MaxPost=0, MaxDisc=0,
     RS="RS_small", ES="ES_big", N="N2", L="L5")
-cfg("Gen_C03", spec="GSpec", inv="", extra="  AllowLose = TRUE\n", MaxCmd=4, MaxEv=2, MaxLop=2, MaxPost=3, MaxDisc=2,
+cfg("Gen_C03", K="K4", spec="GSpec", inv="", extra="  AllowLose = TRUE\n", MaxCmd=4, MaxEv=2, MaxLop=2, MaxPost=3, MaxDisc=2,
     RS="RS_big", ES="ES_big", N="N2", L="L5")
